@@ -10,8 +10,8 @@ GEN   specs/collfs/CollFSFlush.tla  MC_CollFSFlush_C13*.cfg: two files, throttle
       specs/collfs/CollFSDir.tla    MC_CollFSDir_C13*.cfg: directory level (lookup / lock / commit steps of Mkdir,
                                     O_CREATE, Remove, Rename with the fs-wide mutex and root-first ancestor
                                     locks, MarshalManifest) for 2 workers: refinement of CollFS, deadlock
-                                    freedom; Gen_CollFSDir_C13.cfg emits the schedules of its known-finding
-                                    class (an entry created in / moved into a directory unlinked meanwhile)
+                                    freedom, nothing added to an unlinked directory (KF-C13-1, fixed);
+                                    Gen_CollFSDir_C13.cfg emits the schedules in which the removed flag decides
 RUN   harness/C08+C09+C13_arvados   (a) schedules replayed through a gated fake Keep; (b) 2-8 worker goroutines
                                     with random gate delays / failures under `go test -race`
 JUDGE specs/collfs/CollFSConcTrace.tla (CollFSConc: call/return linearisation over CollFS, saved manifests,
@@ -97,7 +97,7 @@ def run(ctx):
         ctx.tlc(SD, "CollFSDir", "MC_CollFSDir_C13_big.cfg", timeout=2400,
                 label="exhaustive: directory operations of 2 workers with the code's locks: refinement (outside KF_detached), tree agreement, no deadlock")
     dsched, r = ctx.gen(SD, "CollFSDir", "Gen_CollFSDir_C13.cfg", timeout=2400,
-                        label="directory level, 1 call per worker: refinement, tree agreement, no deadlock; emits the schedules reaching KF_detached")
+                        label="directory level, 1 call per worker: refinement, tree agreement, nothing lost, no deadlock; emits the schedules in which the removed flag decides (regression for KF-C13-1)")
     seen = set()
     dsched = [d for d in dsched if not (repr(d) in seen or seen.add(repr(d)))]
     dsched.sort(key=lambda d: repr(d))
@@ -143,6 +143,7 @@ def run(ctx):
     # RUN (b): random concurrency under the race detector
     ev2, out2 = C08.run_driver(ctx, PKG, ov, "TestVerifC13$", rscns, timeout=2400, race=True)
     traces = vlib.split_traces(ev1) + vlib.split_traces(ev2)
+    traces.sort(key=lambda t: t[0].get("mode") == "dirsched")     # (stable: the directory schedules are judged last)
     stuck = any(e["ev"] in ("deadlock", "panic") for t in traces for e in t)
     unapplied = [t[0].get("unapplied", 0) for t in traces if t[0].get("mode") == "schedule"
                  and not any(e["ev"] in ("deadlock", "panic") for e in t)]
@@ -171,7 +172,7 @@ def run(ctx):
     ctx.extra["events_judged"] = len(events)
     C08.install_classifier(ctx)
     C08.judge_fast(ctx, SD, "CollFSConcTrace", "Judge_CollFSConc_C13.cfg", events, scenario_of=by_id, timeout=3000,
-                   max_rejects=4)
+                   max_rejects=8)
     nontrivial = set()
     overlap = 0
     for t in traces:
